@@ -77,7 +77,12 @@ def replay_file(pid, path, seed):
         first = doc["first"]
         run.seed = 0
         out = os.path.join(WORK, "trace", "_replay_%s.ndjson" % pid)
-        core.kh_record(first["module"], first["seed"], first["n_events"], out)
+        died = core.kh_record(first["module"], first["seed"], first["n_events"], out)
+        if died:
+            run.add_violation({"kind": "trace", "detail": {"variant": doc.get("variant"), "monitor": died}, "records": doc["records"]})
+            core.log("VIOLATION property=%s replay=%s" % (pid, path))
+            core.log("  reproduced: %s" % died)
+            return 1
         r = core.run_tlc(os.path.join(core.SPEC, "trace"), first["trace_module"], first["cfg"],
                          env={"TRACE": out}, workers=1, trace_mode=True, heap="2g", coverage=False)
         if not r["ok"]:
@@ -979,7 +984,7 @@ def c01(run):
     run.replay(list(files.values()), "native replay with monitors")
     # (2) Miri on a stratified sample: per module, a seeded sample of lines
     rnd = random.Random(run.seed)
-    per = 120 if q else 1500
+    per = 120 if q else 500
     shard_dir = os.path.join(WORK, "vec", "miri")
     os.makedirs(shard_dir, exist_ok=True)
     picked = []
@@ -1009,6 +1014,11 @@ def c01(run):
             run.add_violation({"kind": "vector", "detail": dict(mm, variant="miri:" + str(mm.get("variant"))), "records": [mm.get("rec")]})
     for f, rc, out in fails:
         ub = "Undefined Behavior" in out or "error: " in out
+        if rc == 124 and not ub:
+            # the interpreter ran out of its time budget on this shard (machine load): nothing was observed for it
+            run.notes["miri shard timed out (its behaviours were not interpreted)"] = run.notes.get("miri shard timed out (its behaviours were not interpreted)", 0) + 1
+            core.log("  miri   shard %s timed out - not counted" % os.path.basename(f))
+            continue
         if not ub:
             raise core.ToolError("Miri run failed without a diagnosis (rc=%s):\n%s" % (rc, out))
         # find the record: re-run that shard with progress output
